@@ -112,3 +112,197 @@ func c10R6(c *Ctx, r *Report) {
 		r.Check(okShape, rule, cons, "the result starts with Pack64(...) on every path (the prefix value itself is C10-R4)", detail+": a result without the length prefix (e.g. for empty input) is not a block GetNextBlock can read back", c.Pos(ret.Pos()))
 	})
 }
+
+// c12R10: resetting the authentication deletes the session named by the
+// presented cookie whenever there is one - no other condition decides.
+func c12R10(c *Ctx, r *Report) {
+	const rule = "C12-R10"
+	r.SetFloor(rule, 1)
+	fn := c.Func("api.authReset")
+	if fn == nil {
+		r.Undecided(rule, "api.authReset", "anchor function missing")
+		return
+	}
+	noCookie := Guard{Name: "Cookie() error != nil", Truthy: true, Match: func(b ssa.Value) bool {
+		ex, ok := b.(*ssa.Extract)
+		if !ok || ex.Index != 1 {
+			return false
+		}
+		_, isC := isCallTo(ex, "net/http.Request.Cookie")
+		return isC
+	}}
+	p := ReachFromAvoiding(fn, nil, isExit, []Guard{noCookie}, isCallInstrTo("api.deleteSession"))
+	r.Check(p == nil, rule, "api.authReset / the presented session is deleted", "every exit has either found no session cookie or deleted the session",
+		"authReset can finish without deleting the session although the request carries a session cookie (another condition decides): the cookie stays a valid credential after the reset", c.pathString(p)...)
+	for _, ci := range callsIn(fn, "api.deleteSession") {
+		o := c.Origins(ci.Common().Args[0])
+		r.Check(strings.Contains(strings.Join(o, " "), "net/http.Request.Cookie"), rule, "api.authReset / deletes the session the cookie names", "the deleted key is the cookie's value", fmt.Sprintf("the deleted session key comes from %v, not from the presented cookie", o), c.Pos(ci.Pos()))
+	}
+}
+
+// c13R10: where the interface hands out no controller (nil) the error is never
+// ErrNotFound - Put/PutNew/... continue on ErrNotFound ("record does not exist
+// yet") and use the controller.
+func c13R10(c *Ctx, r *Report) {
+	const rule = "C13-R10"
+	r.SetFloor(rule, 3)
+	isNotFoundLoad := func(in ssa.Instruction) bool {
+		u, ok := in.(*ssa.UnOp)
+		if !ok || u.Op.String() != "*" {
+			return false
+		}
+		g, ok := u.X.(*ssa.Global)
+		return ok && g.Name() == "ErrNotFound" && g.Pkg != nil && short(g.Pkg.Pkg.Path()) == "database"
+	}
+	// (a) getController and everything it statically reaches never mention ErrNotFound
+	gc := c.Func("database.getController")
+	if gc == nil {
+		r.Undecided(rule, "database.getController", "anchor function missing")
+		return
+	}
+	n := 0
+	for _, f := range c.staticallyReachable(gc) {
+		if short(f.Pkg.Pkg.Path()) != "database" {
+			continue
+		}
+		n++
+		var bad ssa.Instruction
+		eachInstr(f, func(in ssa.Instruction) {
+			if bad == nil && isNotFoundLoad(in) {
+				bad = in
+			}
+		})
+		r.Check(bad == nil, rule, fnKey(f)+" / controller lookup never yields ErrNotFound", "no use of ErrNotFound on the controller-lookup path",
+			"the controller lookup can fail with (an error wrapping) ErrNotFound: Interface.Put/PutNew treat that as 'record does not exist yet', go on with the nil controller and crash the request goroutine", posOf(c, bad))
+	}
+	// (b) getMeta/getRecord: a nil controller is returned only together with the lookup's error
+	for _, name := range []string{"database.(*Interface).getMeta", "database.(*Interface).getRecord"} {
+		fn := c.Func(name)
+		if fn == nil {
+			r.Undecided(rule, name, "anchor function missing")
+			continue
+		}
+		k := 0
+		eachInstr(fn, func(in ssa.Instruction) {
+			ret, ok := in.(*ssa.Return)
+			if !ok || len(ret.Results) != 3 || !isNilConst(retVal(ret, 1)) {
+				return
+			}
+			k++
+			okErr := true
+			var from []string
+			for _, l := range c.Leaves(retVal(ret, 2)) {
+				d := leafDesc(l)
+				from = append(from, d)
+				if ex, isEx := l.(*ssa.Extract); isEx {
+					if _, isGC := isCallTo(ex, "database.getController"); isGC {
+						continue
+					}
+				}
+				if call, isCall := l.(*ssa.Call); isCall {
+					if cn := calleeName(&call.Call); cn == "errors.New" {
+						continue
+					}
+				}
+				okErr = false
+			}
+			r.Check(okErr, rule, fmt.Sprintf("%s / return #%d without controller", name, k), "a nil controller comes only with getController's own error",
+				fmt.Sprintf("a nil controller is returned with an error from %v, which may be ErrNotFound: callers that continue on ErrNotFound dereference the nil controller", from), c.Pos(ret.Pos()))
+		})
+	}
+	if n == 0 {
+		r.Bad(rule, "database.getController", "nothing analysed")
+	}
+}
+
+// c15R6: every clearance request waits for the priority's own maximum delay:
+// the caller's value when positive, otherwise the default of that priority.
+func c15R6(c *Ctx, r *Report) {
+	const rule = "C15-R6"
+	r.SetFloor(rule, 4)
+	for _, t := range []struct{ callee, def string }{{"modules.getMediumPriorityClearance", "defaultMediumPriorityMaxDelay"}, {"modules.getLowPriorityClearance", "defaultLowPriorityMaxDelay"}} {
+		want, ok := c.constVal("modules", t.def)
+		if !ok {
+			r.Undecided(rule, "modules."+t.def, "constant missing")
+			continue
+		}
+		for _, s := range c.CallSites(t.callee) {
+			cons := fnKey(s.Fn) + " / delay handed to " + strings.TrimPrefix(t.callee, "modules.")
+			arg := s.Instr.(ssa.CallInstruction).Common().Args[0]
+			var param *ssa.Parameter
+			switch x := arg.(type) {
+			case *ssa.Parameter:
+				r.Bad(rule, cons, "the caller's maxDelay is passed on unchanged: for maxDelay <= 0 (documented as 'use the default') the request times out at once and the microtask starts without clearance, above the concurrency limit", c.Pos(s.Instr.Pos()))
+				continue
+			case *ssa.Phi:
+				good := true
+				why := ""
+				for i, e := range x.Edges {
+					if p, isP := e.(*ssa.Parameter); isP {
+						param = p
+						pos := cmpGuards("maxDelay > 0", func(v ssa.Value) bool { return v == ssa.Value(p) }, func(v int64) bool { return v > 0 }, 0)
+						if !phiEdgeGuardedAny(s.Fn, x, i, pos) {
+							good, why = false, "the caller's value is used although it was not tested positive"
+						}
+						continue
+					}
+					if v, isC := constInt(e); isC {
+						if v != want {
+							good, why = false, fmt.Sprintf("the default used is %d ns, the priority's default %s is %d ns", v, t.def, want)
+						}
+						continue
+					}
+					good, why = false, "unrecognised delay "+e.String()
+				}
+				_ = param
+				r.Check(good, rule, cons, "the caller's positive delay or "+t.def, why+": the microtask is admitted without clearance earlier than its priority's maximum delay allows", c.Pos(s.Instr.Pos()))
+			default:
+				r.Undecided(rule, cons, "unrecognised delay argument "+arg.String())
+			}
+		}
+	}
+}
+
+// c16R11: PeekContainer (and through it GetAsContainer) yields no container
+// only for a negative size or when the container holds too little - a request
+// for zero bytes is served with an empty container like on a byte queue.
+func c16R11(c *Ctx, r *Report) {
+	const rule = "C16-R11"
+	r.SetFloor(rule, 2)
+	fn := c.Func("container.(*Container).PeekContainer")
+	if fn == nil {
+		r.Undecided(rule, "container.(*Container).PeekContainer", "anchor function missing")
+		return
+	}
+	isN := func(v ssa.Value) bool {
+		switch x := v.(type) {
+		case *ssa.Parameter:
+			return x.Name() == "n"
+		case *ssa.Phi:
+			return x.Comment == "n"
+		}
+		return false
+	}
+	nonZero := cmpGuards("n != 0", isN, func(x int64) bool { return x != 0 }, 0)
+	k := 0
+	eachInstr(fn, func(in ssa.Instruction) {
+		ret, ok := in.(*ssa.Return)
+		if !ok || len(ret.Results) != 1 {
+			return
+		}
+		nilable := false
+		for _, l := range c.Leaves(retVal(ret, 0)) {
+			if isNilConst(l) {
+				nilable = true
+			}
+		}
+		if !nilable {
+			return
+		}
+		k++
+		c.RequireAny(r, rule, fmt.Sprintf("container.(*Container).PeekContainer / nil result #%d", k), fn, ret, "size tested non-zero (negative, or bytes missing)", nonZero)
+	})
+	if k == 0 {
+		r.Bad(rule, "container.(*Container).PeekContainer / nil results", "no failure result found (anchor lost)")
+	}
+}
